@@ -22,6 +22,8 @@ def concStoreLine (st : CsRun) (lineNo : Nat) (line : String) : Except String (C
       (if n "stalled" == 0 then [] else [s!"PROPFAIL C12 never_waits_for_service {tag}"]) ++
       (if n "afterclose" > 0 then [] else [s!"PROPFAIL C12 works_after_close {tag}"]) ++
       (if n "dropped_pinned" == 0 then [] else [s!"PROPFAIL C12 pinned_not_dropped {tag}"]) ++
+      (if n "max_cond_waiting" ≤ 1 then [] else [s!"PROPFAIL C11 refreshes_coalesced {tag}"]) ++
+      (if n "lookup_fail" == 0 then [] else [s!"PROPFAIL C16 concurrent_lookup_gets_handle {tag}", s!"PROPFAIL C12 concurrent_lookup_gets_handle {tag}"]) ++
       (if n "upd_bad" == 0 && n "upd_nonmono" == 0 then [] else [s!"PROPFAIL C15 concurrent_get {tag}"]) ++
       (if n "windows" > 0 then [] else [s!"DIVERGE concstore_no_window {tag}"])
     .ok ({ st with cases := st.cases + 1, fails := st.fails + outs.length,
